@@ -75,6 +75,11 @@ R1 = {
         M("algo/Words.tla", "algo/Words_W2N2.cfg"),
         M("algo/Words.tla", "algo/Words_W3N2.cfg", tiers=T, workers=12, timeout=3000),
     ],
+    "C17": [
+        M("algo/Radix.tla", "algo/Radix_W4N1L4.cfg", workers=8), M("algo/Radix.tla", "algo/Radix_W4N2L4.cfg", workers=8),
+        M("algo/Radix.tla", "algo/Radix_W2N2L4.cfg", tiers=T, workers=12), M("algo/Radix.tla", "algo/Radix_W8N1L4.cfg", tiers=T, workers=12),
+        M("algo/Radix.tla", "algo/Radix_W4N3L4.cfg", tiers=T, workers=12),
+    ],
     "C16": [
         M("algo/HexNibble.tla", "algo/HexNibble.cfg", workers=8),
     ],
